@@ -7,6 +7,7 @@
 use serde_json::json;
 
 use crate::cdigest::{circuit_digest, iteration_fingerprint};
+use crate::core::pool::observe;
 use crate::core::prng::{Rng, mix};
 use crate::core::report::{Ctx, RunOut, Spec, Tier};
 use crate::gprog::{self, GenCfg, Program};
@@ -158,6 +159,17 @@ pub fn child(ctx: &Ctx, spec: &str) -> i32 {
 
 pub fn replay(ctx: &Ctx, body: &serde_json::Value) -> i32 {
     let d = &body["detail"];
+    if let Some(n) = d["large"].as_u64() {
+        let (a, b) = (large_build(n as usize, 256, d["seed_a"].as_u64().unwrap_or(1)), large_build(n as usize, 256, d["seed_b"].as_u64().unwrap_or(2)));
+        println!("replay: seed_a -> {a:?}\nreplay: seed_b -> {b:?}");
+        return if a.is_ok() && b.is_ok() && a != b {
+            println!("VIOLATION property={} replay={}", ctx.prop, ctx.replay.as_ref().unwrap().display());
+            1
+        } else {
+            println!("replay did not reproduce");
+            0
+        };
+    }
     let p: Program = match serde_json::from_value(d["program"].clone()) {
         Ok(p) => p,
         Err(e) => {
@@ -187,7 +199,43 @@ pub fn replay(ctx: &Ctx, body: &serde_json::Value) -> i32 {
     }
 }
 
+/// Scale arm: one program with more than 2^20 distinct binary sub-expressions (a chain of additions),
+/// which then re-derives its first links and keeps computing with them. Bounded caches, pools with
+/// eviction and "large input" fast paths only wake up at this size.
+pub fn large_build(n: usize, rederive: usize, hash_seed: u64) -> Result<(u64, usize), String> {
+    use p3_field::PrimeCharacteristicRing;
+    type U = crate::uni::Kb4;
+    type EF = <U as CircuitUni>::EF;
+    foldhash::sim::set_seed(hash_seed);
+    let mut b = p3_circuit::CircuitBuilder::<EF>::new();
+    let x = b.public_input();
+    let y = b.public_input();
+    let mut acc = x;
+    for _ in 0..n {
+        acc = b.add(acc, y);
+    }
+    let out = b.public_input();
+    b.connect(acc, out);
+    let mut acc2 = x;
+    let mut prod = b.alloc_const(EF::ONE, "one");
+    for _ in 0..rederive {
+        acc2 = b.add(acc2, y);
+        prod = b.mul(prod, acc2);
+    }
+    let out2 = b.public_input();
+    b.connect(prod, out2);
+    let c = b.build().map_err(|e| format!("{e:?}"))?;
+    Ok((crate::cdigest::circuit_digest::<<U as CircuitUni>::BF, EF>(&c), c.ops.len()))
+}
+
 pub fn main(ctx: &Ctx) -> i32 {
+    if let Some(spec) = ctx.args.get("large") {
+        // diagnostic / replay of the scale arm: large=<n>,<seed>
+        let (n, s) = spec.split_once(',').map(|(a, b)| (a.parse::<usize>().unwrap_or(1 << 16), b.parse::<u64>().unwrap_or(1))).unwrap_or((1 << 16, 1));
+        let t = std::time::Instant::now();
+        println!("large_build({n}, 256, {s}) = {:?} in {:.1}s", large_build(n, 256, s), t.elapsed().as_secs_f64());
+        return 0;
+    }
     if let Some(spec) = ctx.args.get("child") {
         return child(ctx, spec);
     }
@@ -294,6 +342,34 @@ pub fn main(ctx: &Ctx) -> i32 {
     }
     total.count_n("fresh_process_comparisons", cross);
     total.evals += cross;
+    // scale arm: the large program under several iteration orders
+    {
+        let n = (1usize << 20) + 4096;
+        let k: u64 = ctx.tier.pick(3, 8);
+        let mut first: Option<(u64, (u64, usize))> = None;
+        for j in 0..k {
+            let hs = mix(mix(ctx.seed, 0x1a46e), j);
+            match observe(|| large_build(n, 256, hs)) {
+                Ok(Ok(d)) => {
+                    total.evals += 1;
+                    total.count("large_program_builds");
+                    match first {
+                        None => first = Some((hs, d)),
+                        Some((h0, d0)) if d0 != d => {
+                            total.violate(
+                                "hash_order_dependent:large_program".to_string(),
+                                format!("the {n}-addition program compiles to different circuits under two hash-iteration orders ({} ops / digest {:016x} vs {} ops / digest {:016x})", d0.1, d0.0, d.1, d.0),
+                                json!({"large": n, "seed_a": h0, "seed_b": hs}),
+                            );
+                            break;
+                        }
+                        _ => {}
+                    }
+                }
+                _ => total.count("large_program_build_failed"),
+            }
+        }
+    }
     crate::core::report::finish(
         ctx,
         &total,
